@@ -229,7 +229,10 @@ int main(int argc, char **argv)
 			// reinit_blocksize=N: ask for another block_size this time (same thread count)
 			long nbs = arg(argc, argv, "reinit_blocksize", 0);
 			if (enc && nbs > 0) mt.block_size = (uint64_t)nbs;
-			record("AppReinit", -1, enc ? nbs : 0, 0, 0, 0);
+			// reinit_threads=N: another thread count this time
+			long nthr = arg(argc, argv, "reinit_threads", 0);
+			if (enc && nthr > 0) mt.threads = (uint32_t)nthr;
+			record("AppReinit", -1, enc ? nbs : 0, enc ? nthr : 0, 0, 0);
 			opt_delta.dist = 1;
 			r = enc ? lzma_stream_encoder_mt(&strm, &mt) : lzma_stream_decoder_mt(&strm, &mt);
 			record("Reinited", -1, r, 0, 0, 0);
